@@ -1,0 +1,32 @@
+//! Named scheduling / observation points for external verification harnesses.
+//!
+//! Compiled only with `--cfg inputlayer_verif`; a normal build contains none of this.
+//! A harness installs a callback with [`set_hook`]; every instrumented site then calls it
+//! with the site's name on the executing thread, which lets the harness park that thread,
+//! inject a delay, or take a copy of the data directory ("crash image") at that instant.
+
+use std::sync::{Arc, RwLock};
+
+/// Callback invoked with the name of the point that was reached.
+pub type Hook = Arc<dyn Fn(&'static str) + Send + Sync>;
+
+static HOOK: RwLock<Option<Hook>> = RwLock::new(None);
+
+/// Install (or, with `None`, remove) the process-wide hook.
+pub fn set_hook(hook: Option<Hook>) {
+    if let Ok(mut g) = HOOK.write() {
+        *g = hook;
+    }
+}
+
+/// Announce that the current thread reached `name`.
+#[inline]
+pub fn point(name: &'static str) {
+    let hook = match HOOK.read() {
+        Ok(g) => g.clone(),
+        Err(_) => None,
+    };
+    if let Some(h) = hook {
+        h(name);
+    }
+}
